@@ -30,7 +30,8 @@ def verify_unit(args):
         from .repo import Repo
         from .origin import run_static
         repo = Repo(repo_root)
-        for m in ("liquer.store", "liquer.cache", "liquer.context", "liquer.parser", "liquer.commands", "liquer.state", "liquer.recipes"):
+        for m in ("liquer.store", "liquer.cache", "liquer.context", "liquer.parser", "liquer.commands", "liquer.state", "liquer.recipes",
+                  "liquer.state_types", "liquer.metadata"):
             repo.module(m)
         vcs = run_static(repo, name)
         for i, v in enumerate(vcs):
